@@ -597,6 +597,19 @@ def specLine (p : Prop5) (st : Option Obs) (input : String) : Option Obs × Stri
       | none => (none, "ok")
       | some o =>
         if impl.startsWith "panic" || impl.startsWith "crash" then (some o, "fail crashed") else
+        if toks.head? == some "walk" then
+          -- C12: a stream opened along a learned route (path no longer than the hop limit it was
+          -- learned under) must arrive at the advertising agent's exit handling
+          (some { o with clock := o.clock + 1 },
+            match toks with
+            | [_, _, _, pth] =>
+              match parsePath pth with
+              | some pp =>
+                if tokens impl == ["r=walk", s!"reached:{pp.getLastD 0}"] || tokens impl == ["r=bad"] then "ok"
+                else if (tokens impl).any (fun t => t.startsWith "refused:") then "fail open-along-learned-route-refused"
+                else "fail open-along-learned-route-lost"
+              | none => "ok"
+            | _ => "ok") else
         if toks.head? == some "race" then
           (some { o with clock := o.clock + 1 },
             if (tokens impl == ["r=race", "accepted=1", "fwd=1"]) || tokens impl == ["r=bad"] then "ok"
@@ -637,6 +650,19 @@ def stepLine (follow : Bool) (st : Option Net) (input : String) : Option Net × 
     | none => (none, "r=noreset")
     | some s =>
       match toks with
+      | ["walk", mh, x, pth] =>
+        -- stateless: the STREAM_OPEN walk (`openRoute`) along a recorded path whose consecutive agents
+        -- are connected; a learned route is usable whatever the hop limit it was learned under
+        (some (step s .dump), match nat? mh, nat? x, parsePath pth with
+          | some _, some x, some p =>
+            if p.isEmpty || p.length > 40 || p.any (· > 250) then "r=bad" else
+            let seq := x :: p
+            let lk := fun (a b : Node) => (seq.zip (seq.drop 1)).any (fun e => (e.1 == a && e.2 == b) || (e.1 == b && e.2 == a))
+            let e : Entry := { kind := 0, key := 0, origin := p.getLastD 0, nextHop := p.headD 0, metric := 0, path := p, seq := 0, lu := 0 }
+            match openRoute lk x e with
+            | some o => s!"r=walk reached:{o}"
+            | none => "r=walk lost"
+          | _, _, _ => "r=bad")
       | ["race", k, rounds] =>
         -- stateless stress op: with an atomic test-and-set the answer is always 1 / 1
         (some (step s .dump), match nat? k, nat? rounds with
